@@ -383,6 +383,12 @@ class Interp:
                 for n in hir.nodes(b["body"], "Index"):
                     bid = local_id(n["base"])
                     idx = hir.strip(n["idx"])
+                    # tokens[<range>.shift(origin)]: a range moved to the absolute frame indexes absolute tokens
+                    if bid in toks[b["p"]] and idx.get("k") == "MethodCall" and idx["m"] == "shift" and idx["args"]:
+                        vid = local_id(idx["args"][0])
+                        if vid in nums[b["p"]] and (b["p"], vid) in origin and (b["p"], bid) not in abs_toks:
+                            abs_toks.add((b["p"], bid))
+                            changed = True
                     if bid in toks[b["p"]] and idx.get("k") == "Struct":
                         for f in idx["fields"]:
                             vid = local_id(f["e"])
